@@ -564,6 +564,28 @@ pub fn next_entry(g: &mut Gen, r: &dyn Runner) -> String {
             _ => format!("a entry_replace_panic {} {}", k, g.id()),
         };
     }
+    if g.rng.chance(1, 14) {
+        // a raw entry looked up with one (usually absent) key and filled with another absent key, then looked up
+        let present = r.keys("a");
+        let absent = |g: &mut Gen| (0..12).map(|_| g.key()).find(|k| !present.contains(k));
+        if let (Some(k), Some(ks)) = (absent(g), absent(g)) {
+            if k != ks {
+                let k = if g.rng.chance(1, 8) { g.present_key(r, "a").unwrap_or(k) } else { k };
+                let (kid, vid) = (g.id(), g.id());
+                g.script.push_back(format!("a {} {}", *g.rng.pick(&["get", "raw_get", "contains", "remove_entry", "get"]), ks));
+                return format!(
+                    "a raw_other {} {} {} {} {} {} {}",
+                    *g.rng.pick(&["raw_from_key", "raw_from_key_hashed", "raw_from_hash"]),
+                    k,
+                    *g.rng.pick(&["vac_insert", "or_insert"]),
+                    ks,
+                    kid,
+                    vid,
+                    100 + g.rng.below(50)
+                );
+            }
+        }
+    }
     if g.rng.chance(6, 10) {
         let tgt = if g.rng.chance(1, 8) { "b" } else { "a" };
         ent_op(g, r, tgt, 50)
